@@ -51,6 +51,13 @@ pub fn check_kmeans(c: &Case, obs: &mut Obs) {
         let pred = any_layout::<_, Array1<usize>>(&model);
         if let Some(info) = driver::run(obs, c, &pred, &spec) {
             nearest_check(obs, &info, model.centroids(), true);
+            driver::check_single_sample(
+                obs,
+                &info,
+                "KMeans::predict(&sample)",
+                &|v| { let l: usize = model.predict(&v); l as f64 },
+                &|v| { let mut l = 3usize; linfa::traits::PredictInplace::predict_inplace(&model, &v, &mut l); l as f64 },
+            );
         }
     } else {
         let Some(model) =
@@ -65,6 +72,13 @@ pub fn check_kmeans(c: &Case, obs: &mut Obs) {
         let pred = any_layout::<_, Array1<usize>>(&model);
         if let Some(info) = driver::run(obs, c, &pred, &spec) {
             nearest_check(obs, &info, model.centroids(), false);
+            driver::check_single_sample(
+                obs,
+                &info,
+                "KMeans::predict(&sample)",
+                &|v| { let l: usize = model.predict(&v); l as f64 },
+                &|v| { let mut l = 3usize; linfa::traits::PredictInplace::predict_inplace(&model, &v, &mut l); l as f64 },
+            );
         }
     }
 }
